@@ -9,6 +9,9 @@
 //! * a per-thread registry through which a harness can read the sizes of the async client's
 //!   bookkeeping tables.
 //!
+//! It also provides [`preempt`], a point at which a harness may let the other tasks run (thread preemption
+//! between two statements of an `async fn`).
+//!
 //! When no gate factory is installed the wrappers are transparent.
 
 use std::cell::RefCell;
@@ -157,6 +160,43 @@ pub mod timer {
 		fn poll(mut self: Pin<&mut Self>, cx: &mut Context<'_>) -> Poll<()> {
 			self.0.as_mut().poll(cx)
 		}
+	}
+}
+
+/// What happens at a preemption point, decided by the harness: the number of times the task gives way to the other
+/// runnable tasks, and for how long (on tokio's clock) it stays descheduled after that.
+pub type PreemptFn = Box<dyn Fn(&'static str) -> (u32, std::time::Duration)>;
+
+thread_local! {
+	static PREEMPT: RefCell<Option<PreemptFn>> = const { RefCell::new(None) };
+}
+
+/// Install (or remove) the preemption oracle of the current thread.
+pub fn set_preempt(f: Option<PreemptFn>) {
+	PREEMPT.with(|p| *p.borrow_mut() = f);
+}
+
+/// A *preemption point*: a place between two statements of an `async fn` that have no `.await` between them (or an
+/// `.await` that normally completes at once), where a thread of a multi-threaded runtime can be descheduled while
+/// the other tasks of the process keep running. The harness decides what happens here; without a harness this
+/// returns immediately and never suspends.
+pub async fn preempt(site: &'static str) {
+	let Some((yields, pause)) = PREEMPT.with(|p| p.borrow().as_ref().map(|f| f(site))) else { return };
+	for _ in 0..yields {
+		let mut yielded = false;
+		std::future::poll_fn(|cx| {
+			if yielded {
+				Poll::Ready(())
+			} else {
+				yielded = true;
+				cx.waker().wake_by_ref();
+				Poll::Pending
+			}
+		})
+		.await;
+	}
+	if !pause.is_zero() {
+		::tokio::time::sleep(pause).await;
 	}
 }
 
